@@ -760,7 +760,7 @@ def normalise_module(tree: ast.Module):
 
 # ------------------------------------------------------------------------------------------- N5 local copy propagation
 PURE_CALLS = {"len", "any", "all", "isinstance", "range", "enumerate", "min", "max", "sum", "int", "abs", "tuple", "hasattr", "bool", "str", "float",
-              "np.dtype", "numpy.dtype", "zip", "sorted", "reversed", "type", "slice"}
+              "np.dtype", "numpy.dtype", "zip", "sorted", "reversed", "type", "slice", "nullcontext", "contextlib.nullcontext", "frozenset", "set", "list"}
 
 
 # read-only AND not raising on well-typed receivers (a call that can raise is not moved: its handler may differ at the use site)
@@ -862,7 +862,7 @@ def _kills(st, paths, names, attrs, value=None):
             f = n.func
             if isinstance(f, ast.Attribute):
                 recv = ast.unparse(f.value)
-                if f.attr in ("seek", "write", "read", "flush", "tell", "getvalue", "bread", "bwrite", "skip", "bpad", "pad", "_write", "nBytes",
+                if f.attr in ("seek", "write", "read", "flush", "tell", "truncate", "getvalue", "bread", "bwrite", "skip", "bpad", "pad", "_write", "nBytes",
                               "decode", "encode", "index", "find", "startswith", "endswith", "split", "partition", "tolist", "astype", "tobytes", "copy",
                               "items", "keys", "values", "get", "stat", "exists", "is_file", "format", "join", "count", "timestamp", "lower", "upper", "strip"):
                     # stream / codec traffic does not touch the values the rules look at (the entry objects are updated by
@@ -1020,6 +1020,21 @@ class CopyProp:
         for n in ast.walk(fn):
             if isinstance(n, ast.Name) and isinstance(n.ctx, ast.Load):
                 self.loads[n.id] = self.loads.get(n.id, 0) + 1
+        # loads that only iterate / measure the value (no object identity escapes, nothing can mutate it)
+        consumers = {"len", "sum", "any", "all", "enumerate", "zip", "sorted", "tuple", "min", "max", "iter", "reversed"}
+        consumed = {}
+        for n in ast.walk(fn):
+            its = []
+            if isinstance(n, ast.For):
+                its.append(n.iter)
+            if isinstance(n, ast.comprehension):
+                its.append(n.iter)
+            if isinstance(n, ast.Call) and isinstance(n.func, ast.Name) and n.func.id in consumers:
+                its += list(n.args)
+            for it in its:
+                if isinstance(it, ast.Name):
+                    consumed[it.id] = consumed.get(it.id, 0) + 1
+        self.consumed_only = {x for x, k in consumed.items() if k == self.loads.get(x)}
         changed = False
         changed |= self.block(fn.body, stores, params, in_loop=False)
         return changed
@@ -1033,7 +1048,7 @@ class CopyProp:
                     and stores.get(st.targets[0].id) == 1 and st.targets[0].id not in params and _pure_expr(st.value) \
                     and (not any(isinstance(x, (ast.List, ast.Dict, ast.Set, ast.ListComp, ast.DictComp, ast.SetComp, ast.GeneratorExp))
                                  or (isinstance(x, ast.Call) and isinstance(x.func, ast.Attribute) and x.func.attr in FRESH_METHODS) for x in ast.walk(st.value))
-                         or self.loads.get(st.targets[0].id) == 1 or _in_pure_consumer_only(st.value)) \
+                         or self.loads.get(st.targets[0].id) == 1 or _in_pure_consumer_only(st.value) or st.targets[0].id in self.consumed_only) \
                     and True:
                 name = st.targets[0].id
                 paths, names = _paths_read(st.value)
@@ -1088,6 +1103,8 @@ class CopyProp:
                         st.test = S().visit(st.test)
                     elif isinstance(st, ast.For):
                         st.iter = S().visit(st.iter)
+                    elif isinstance(st, ast.With) and len(st.items) == 1:
+                        st.items[0].context_expr = S().visit(st.items[0].context_expr)
                     left += count(st)
                     killed = True
                     continue
@@ -1288,6 +1305,18 @@ class Canon(ast.NodeTransformer):
         if isinstance(node.func, ast.IfExp) and not any(isinstance(x, ast.Call) for a in list(node.args) + [k.value for k in node.keywords] for x in ast.walk(a)):
             mk = lambda f: ast.Call(func=f, args=copy.deepcopy(node.args), keywords=copy.deepcopy(node.keywords))
             return ast.copy_location(ast.IfExp(test=node.func.test, body=mk(node.func.body), orelse=mk(node.func.orelse)), node)
+        # (lambda p, q: E)(a, b)  ==>  E[p := a, q := b]      (arguments free of calls, or used once)
+        if isinstance(node.func, ast.Lambda) and not node.keywords and not node.func.args.defaults and not node.func.args.vararg and not node.func.args.kwarg \
+                and not node.func.args.kwonlyargs and len(node.func.args.args) == len(node.args) and not any(isinstance(a, ast.Starred) for a in node.args):
+            params = [a.arg for a in node.func.args.args]
+            body = node.func.body
+            okk = True
+            for p_, a in zip(params, node.args):
+                uses = sum(1 for x in ast.walk(body) if isinstance(x, ast.Name) and x.id == p_)
+                if uses != 1 and any(isinstance(x, ast.Call) for x in ast.walk(a)):
+                    okk = False
+            if okk:
+                return ast.copy_location(self.visit(_subst_names(body, dict(zip(params, node.args)))), node)
         # f(*[a, b])  ==>  f(a, b)
         if any(isinstance(a, ast.Starred) and isinstance(a.value, (ast.List, ast.Tuple)) for a in node.args):
             args = []
@@ -1297,6 +1326,14 @@ class Canon(ast.NodeTransformer):
                 else:
                     args.append(a)
             node.args = args
+        # len([E for x in IT])  ==>  len(IT)
+        if fname == "len" and len(node.args) == 1 and isinstance(node.args[0], (ast.ListComp, ast.GeneratorExp)) and len(node.args[0].generators) == 1 \
+                and not node.args[0].generators[0].ifs and _pure_expr(node.args[0].elt):
+            return ast.copy_location(ast.Call(func=node.func, args=[node.args[0].generators[0].iter], keywords=[]), node)
+        # slice(x.start, x.stop)  ==>  x        (the runs are built as slice(a, b): no step)
+        if fname == "slice" and len(node.args) == 2 and all(isinstance(a, ast.Attribute) for a in node.args) and node.args[0].attr == "start" and node.args[1].attr == "stop" \
+                and ast.unparse(node.args[0].value) == ast.unparse(node.args[1].value) and isinstance(node.args[0].value, ast.Name):
+            return node.args[0].value
         # list() / dict()  ==>  [] / {}
         if fname == "list" and not node.args and not node.keywords:
             return ast.copy_location(ast.List(elts=[], ctx=ast.Load()), node)
@@ -1419,6 +1456,25 @@ class Canon(ast.NodeTransformer):
                         x.ctx = ast.Store()
                 test = ast.Call(func=ast.Name(id="any", ctx=ast.Load()), args=[gen], keywords=[])
                 return ast.copy_location(ast.If(test=test, body=[rs], orelse=[]), node)
+        # for v in [E for x in IT if c]: body   ==>   for x in IT: if c: v = E; body        (E free of impure calls)
+        itc = node.iter
+        if isinstance(itc, (ast.ListComp, ast.GeneratorExp)) and len(itc.generators) == 1 and not node.orelse and _pure_expr(itc.elt) \
+                and all(_pure_expr(c) for c in itc.generators[0].ifs):
+            g = itc.generators[0]
+            bound = {x.id for x in ast.walk(g.target) if isinstance(x, ast.Name)}
+            tnames = {x.id for x in ast.walk(node.target) if isinstance(x, ast.Name)}
+            stored = {x.id for s_ in node.body for x in ast.walk(s_) if isinstance(x, ast.Name) and isinstance(x.ctx, ast.Store)}
+            if not (bound & (tnames | stored)):
+                tgt = copy.deepcopy(g.target)
+                for x in ast.walk(tgt):
+                    if isinstance(x, (ast.Name, ast.Tuple, ast.List)):
+                        x.ctx = ast.Store()
+                first = self.visit_Assign(ast.copy_location(ast.Assign(targets=[node.target], value=itc.elt, lineno=node.lineno), node))
+                body = (first if isinstance(first, list) else [first]) + node.body
+                if g.ifs:
+                    test = g.ifs[0] if len(g.ifs) == 1 else ast.BoolOp(op=ast.And(), values=g.ifs)
+                    body = [ast.copy_location(ast.If(test=test, body=body, orelse=[]), node)]
+                node = ast.copy_location(ast.For(target=tgt, iter=g.iter, body=body, orelse=[], type_comment=None), node)
         # for i, e in enumerate(X): body (i unused)   ==>   for e in X: body
         it0 = node.iter
         if isinstance(it0, ast.Call) and isinstance(it0.func, ast.Name) and it0.func.id == "enumerate" and it0.args and isinstance(node.target, ast.Tuple) \
@@ -1559,6 +1615,17 @@ class AppendLoops(ast.NodeTransformer):
                     out.append(ast.copy_location(ast.Assign(targets=[st.targets[0]], value=call, lineno=st.lineno), nxt))
                     i += 2
                     continue
+            # for x in IT: if C: break   else: S(exits)      ==>   x = next((x for x in IT if C), None); if x is None: S
+            if isinstance(st, ast.For) and st.orelse and always_exits(st.orelse) and isinstance(st.target, ast.Name) and len(st.body) == 1 \
+                    and isinstance(st.body[0], ast.If) and not st.body[0].orelse and len(st.body[0].body) == 1 and isinstance(st.body[0].body[0], ast.Break):
+                x = st.target.id
+                gen = ast.GeneratorExp(elt=ast.Name(id=x, ctx=ast.Load()), generators=[ast.comprehension(target=ast.Name(id=x, ctx=ast.Store()), iter=st.iter, ifs=[st.body[0].test], is_async=0)])
+                call = ast.Call(func=ast.Name(id="next", ctx=ast.Load()), args=[gen, ast.Constant(value=None)], keywords=[])
+                out.append(ast.copy_location(ast.Assign(targets=[ast.Name(id=x, ctx=ast.Store())], value=call, lineno=st.lineno), st))
+                test = ast.Compare(left=ast.Name(id=x, ctx=ast.Load()), ops=[ast.Is()], comparators=[ast.Constant(value=None)])
+                out.append(ast.copy_location(ast.If(test=test, body=st.orelse, orelse=[]), st))
+                i += 1
+                continue
             # for T in IT: if C: x = V; break    else: S      ==>   x = next((V for T in IT if C), None); if x is None: S
             if isinstance(st, ast.For) and st.orelse and len(st.body) == 1 and isinstance(st.body[0], ast.If) and not st.body[0].orelse \
                     and len(st.body[0].body) == 2 and isinstance(st.body[0].body[1], ast.Break) and isinstance(st.body[0].body[0], ast.Assign) \
